@@ -186,15 +186,30 @@ func rewriteYields(fset *token.FileSet, f *ast.File, info *types.Info, site stri
 
 	// identifiers drawn from crypto/rand become a deterministic sequence under the scheduler (they key maps whose
 	// iteration order is seeded)
-	ast.Inspect(f, func(node ast.Node) bool {
-		kv, ok := node.(*ast.KeyValueExpr)
-		if !ok {
-			return true
+	isNewID := func(e ast.Expr) (*ast.CallExpr, bool) {
+		c, ok := e.(*ast.CallExpr)
+		if !ok || len(c.Args) != 0 {
+			return nil, false
 		}
-		if c, ok := kv.Value.(*ast.CallExpr); ok && len(c.Args) == 0 {
-			if sel, ok := c.Fun.(*ast.SelectorExpr); ok && sel.Sel.Name == "NewID" {
-				if pk, ok := sel.X.(*ast.Ident); ok && pk.Name == "rpc" {
-					kv.Value = call("ID", c)
+		sel, ok := c.Fun.(*ast.SelectorExpr)
+		if !ok || sel.Sel.Name != "NewID" {
+			return nil, false
+		}
+		pk, ok := sel.X.(*ast.Ident)
+		return c, ok && pk.Name == "rpc"
+	}
+	ast.Inspect(f, func(node ast.Node) bool {
+		switch x := node.(type) {
+		case *ast.KeyValueExpr:
+			if c, ok := isNewID(x.Value); ok {
+				x.Value = call("ID", c)
+				n++
+				stats["rpc_ids"]++
+			}
+		case *ast.AssignStmt:
+			for i, rhs := range x.Rhs {
+				if c, ok := isNewID(rhs); ok {
+					x.Rhs[i] = call("ID", c)
 					n++
 					stats["rpc_ids"]++
 				}
@@ -223,6 +238,66 @@ func rewriteYields(fset *token.FileSet, f *ast.File, info *types.Info, site stri
 		return true
 	})
 	n += rewriteSelects(fset, f, site, stats)
+	n += rewriteGuardedWrites(fset, f, info, site, stats)
+	return n
+}
+
+// rewriteGuardedWrites: `x.conn.WriteMessage(...)` (WriteJSON, WriteControl, NextWriter, Close) where x is a struct with
+// the fields `conn` and `mux` becomes `simrt.Guarded(x.mux, site, x.conn).WriteMessage(...)`: a probe that the writer
+// holds the mutex which serialises writers of that connection.
+func rewriteGuardedWrites(fset *token.FileSet, f *ast.File, info *types.Info, site string, stats map[string]int) int {
+	n := 0
+	hasField := func(t types.Type, name string) (types.Type, bool) {
+		if p, ok := t.(*types.Pointer); ok {
+			t = p.Elem()
+		}
+		st, ok := t.Underlying().(*types.Struct)
+		if !ok {
+			return nil, false
+		}
+		for i := 0; i < st.NumFields(); i++ {
+			if st.Field(i).Name() == name {
+				return st.Field(i).Type(), true
+			}
+		}
+		return nil, false
+	}
+	ast.Inspect(f, func(node ast.Node) bool {
+		c, ok := node.(*ast.CallExpr)
+		if !ok {
+			return true
+		}
+		m, ok := c.Fun.(*ast.SelectorExpr)
+		if !ok {
+			return true
+		}
+		switch m.Sel.Name {
+		case "WriteMessage", "WriteJSON", "WriteControl", "NextWriter", "WritePreparedMessage":
+		default:
+			return true
+		}
+		inner, ok := m.X.(*ast.SelectorExpr)
+		if !ok || inner.Sel.Name != "conn" {
+			return true
+		}
+		tv, ok := info.Types[inner.X]
+		if !ok || tv.Type == nil {
+			return true
+		}
+		mt, ok := hasField(tv.Type, "mux")
+		if !ok {
+			return true
+		}
+		var mux ast.Expr = &ast.SelectorExpr{X: inner.X, Sel: ast.NewIdent("mux")}
+		if _, isPtr := mt.(*types.Pointer); !isPtr {
+			mux = &ast.UnaryExpr{Op: token.AND, X: mux}
+		}
+		siteLit := &ast.BasicLit{Kind: token.STRING, Value: strconv.Quote(fmt.Sprintf("%s:%d", site, fset.Position(c.Pos()).Line))}
+		m.X = &ast.CallExpr{Fun: &ast.SelectorExpr{X: ast.NewIdent("simrt__"), Sel: ast.NewIdent("Guarded")}, Args: []ast.Expr{mux, siteLit, inner}}
+		n++
+		stats["guarded_connection_writes"]++
+		return true
+	})
 	return n
 }
 
